@@ -12,7 +12,7 @@ Texts == ndJsonDeserialize(InFile)
 RE(seq) == seq[RandomElement(1..Len(seq))]
 E0 == << >>
 \* separator trivia that keep two words apart whatever follows
-SafeSep == SubSeq(TrivSep, 1, 8) \o <<TrivSep[10], TrivSep[11]>>
+SafeSep == SubSeq(TrivSep, 1, 6) \o SubSeq(TrivSep, 8, Len(TrivSep))
 RECURSIVE Relaid(_, _, _, _)
 Relaid(t, its, i, inq) ==
   IF i > Len(its) THEN << >>
